@@ -272,3 +272,16 @@ Proof.
             |intros (H1 & H2 & H3); try discriminate; auto;
              destruct H3 as [H3|[H3|[H3|[H3|H3]]]]; congruence]).
 Qed.
+
+(** ** FmtPct and the shared FmtFixed print the same scaled integer: the exact
+    value times 10^prec rounded half-to-even (FmtFixed's characterising lemmas,
+    Proofs/FmtFixed.v, therefore apply to what C13 renders). The digit strings
+    are compared on every rendered number by the correspondence run. *)
+From Perf Require Base.FmtFixed.
+
+Lemma scaled_abs_is_fx_mag prec m e :
+  scaled_abs (Z.of_nat prec) m e = FmtFixed.fx_mag m e prec.
+Proof.
+  unfold scaled_abs, FmtFixed.fx_mag, rhe_div, FmtFixed.rne_div.
+  destruct e as [|p|p]; reflexivity.
+Qed.
